@@ -527,8 +527,26 @@ def gen_tg_net(rng, big=False, fail_p=0.4, unequal_p=0.2, quirk_p=0.1, hold_p=0.
 def gen_sg_net(rng, fail_p=0.3):
     """the scatter/gather and combinator families (real ScatterStep / GatherStep / CombinatorStep)"""
     n = rng.choice([0, 1, 2, 3, 5, 11])
-    fam = rng.choice(["sg", "sg", "dot", "cart"])
+    fam = rng.choice(["sg", "sg", "dot", "cart", "bcast"])
     steps = []
+    if fam == "bcast":
+        # a scattered port and a NON-scattered one (tag 0, broadcast to every element) combined by a dot product,
+        # as the CWL translator does for a scatter step with non-scattered inputs; then transform and gather
+        n = rng.choice([2, 3, 4, 6])
+        inputs = {"i0": [["0", [rng.randrange(0, 30) for _ in range(n)]]], "i1": [["0", rng.randrange(100, 130)]]}
+        steps.append({"n": "/sa", "k": "scatter", "ins": {"x": "i0"}, "outs": {"o": "ea", "__size__": "sza"}})
+        steps.append({"n": "/da", "k": "xf", "ins": {"x": "ea"}, "outs": {"o": "fa"}, "add": 0,
+                      "yields": rng.choice([0, 1, 3])})
+        steps.append({"n": "/db", "k": "xf", "ins": {"x": "i1"}, "outs": {"o": "fb"}, "add": 0,
+                      "yields": rng.choice([0, 1, 3]), "hold": rng.random() < 0.5})   # the parent token arrives last
+        steps.append({"n": "/c", "k": "dot", "ins": {"a": "fa", "b": "fb"}, "outs": {"a": "ca", "b": "cb"}})
+        steps.append({"n": "/t", "k": "xf", "ins": {"a": "ca", "b": "cb"}, "outs": {"o": "r"},
+                      "add": rng.randrange(0, 5), "yields": rng.choice([0, 1, 3])})
+        steps.append({"n": "/g", "k": "gather", "ins": {"x": "r", "__size__": "sza"}, "outs": {"o": "l"}})
+        case = {"f": "net", "steps": steps, "inputs": inputs, "sched": rng.randrange(1 << 30), "bcast": True}
+        if rng.random() < fail_p:
+            next(s for s in steps if s["n"] == "/t")["fail"] = [f"0.{rng.randrange(n)}"]
+        return fix_outputs(case)
     if fam == "sg":
         inputs = {"i0": [["0", [rng.randrange(0, 30) for _ in range(n)]]]}
         steps.append({"n": "/sc", "k": "scatter", "ins": {"x": "i0"}, "outs": {"o": "e", "__size__": "sz"}})
